@@ -214,8 +214,108 @@ namespace rkverif {
       }
     }
 
+    // ---- R-C02-16: static destruction order of a registry of tasks relative to the scheduler
+    static std::vector<Task *> w_registryBefore;  // declared before the scheduler: destroyed after it (accepted)
+
     // ---- R-C02-8: a scheduler that may hold queued tasks is drained before its pipes are discarded
     static std::unique_ptr<enki::TaskScheduler> w_ts;
+
+    static std::vector<Task *> w_registryAfter;  // declared after the scheduler: destroyed before it (flagged)
+
+    inline std::vector<Task *> &registryOnFirstUse()  // function-local static: constructed later, destroyed earlier (flagged)
+    {
+      static std::vector<Task *> w_registryLocal;
+      return w_registryLocal;
+    }
+
+    inline std::vector<Task *> &registryLeaked()  // never destroyed (accepted)
+    {
+      static std::vector<Task *> *w_registryHeap = new std::vector<Task *>;
+      return *w_registryHeap;
+    }
+
+    // ---- R-C02-14: stealing loops
+    struct Stealer
+    {
+      enki::LockLessMultiReadPipe<4, int> pipes[4];
+      uint32_t count;
+
+      bool stealAll(uint32_t self, uint32_t &hint, int *out)  // accepted: count iterations
+      {
+        bool have = false;
+        uint32_t victim = hint, c = 0;
+        while (!have && c < count) {
+          victim = (hint + c) % count;
+          if (victim != self)
+            have = pipes[victim].ReaderTryReadBack(out);
+          ++c;
+        }
+        return have;
+      }
+
+      bool stealShort(uint32_t self, uint32_t &hint, int *out)  // flagged: count - 1 iterations from an arbitrary start
+      {
+        bool have = false;
+        uint32_t victim = hint, c = 0;
+        while (!have && c < count - 1) {
+          victim = (hint + c) % count;
+          if (victim != self)
+            have = pipes[victim].ReaderTryReadBack(out);
+          ++c;
+        }
+        return have;
+      }
+
+      bool stealFromNext(uint32_t self, int *out)  // accepted: count - 1 iterations starting right after the own pipe
+      {
+        bool have = false;
+        uint32_t victim = 0;
+        for (uint32_t c = 0; !have && c < count - 1; ++c) {
+          victim = (self + 1 + c) % count;
+          if (victim != self)
+            have = pipes[victim].ReaderTryReadBack(out);
+        }
+        return have;
+      }
+    };
+
+    // ---- R-C02-15: slot ring, the writer may only overwrite a slot whose flag the readers have reset
+    struct SlotRing
+    {
+      int buf[4];
+      volatile uint32_t flags[4];
+      volatile uint32_t writeIndex, readCount;
+
+      bool writeChecked(int v)  // accepted
+      {
+        uint32_t i = writeIndex & 3;
+        if (flags[i] != 0)
+          return false;
+        buf[i]   = v;
+        flags[i] = 1;
+        ++writeIndex;
+        return true;
+      }
+
+      bool writeByCounters(int v)  // flagged: the read count advances before the reader has copied the item
+      {
+        uint32_t i = writeIndex & 3;
+        if (writeIndex - readCount >= 4)
+          return false;
+        buf[i]   = v;
+        flags[i] = 1;
+        ++writeIndex;
+        return true;
+      }
+
+      int read(uint32_t i)
+      {
+        ++readCount;
+        int v    = buf[i];
+        flags[i] = 0;
+        return v;
+      }
+    };
 
     inline void reinitKeepsScheduler(int n)  // Initialize() stops the threads and deletes the pipes: queued tasks are dropped
     {
@@ -365,6 +465,20 @@ namespace rkverif {
 
     inline void instantiate()
     {
+      Stealer st;
+      int got = 0;
+      uint32_t hint = 1;
+      st.stealAll(0, hint, &got);
+      st.stealShort(0, hint, &got);
+      st.stealFromNext(0, &got);
+      SlotRing ring;
+      ring.writeChecked(1);
+      ring.writeByCounters(1);
+      ring.read(0);
+      registryOnFirstUse();
+      registryLeaked();
+      (void)w_registryBefore;
+      (void)w_registryAfter;
       Handshake hs;
       hs.sleepRegisteredFirst();
       hs.sleepCheckedFirst();
